@@ -9,6 +9,7 @@ import (
 	"os"
 	"os/exec"
 	"path/filepath"
+	"regexp"
 	"runtime"
 	"strconv"
 	"strings"
@@ -230,6 +231,24 @@ func Discharge(o *Obligation, st *Symtab, cfg *SolverCfg) {
 		return
 	}
 	o.Stdout = out
+	// stage 1b: goal-directed slices. Keeping only the assumptions connected to the goal through
+	// shared path symbols (one, two, zero hops) is sound - assumptions are only dropped - and
+	// often decides in a fraction of a second what the full context does not within the limit.
+	if o.rawQuery == "" && len(o.Assume) > 8 {
+		for _, hops := range []int{1, 2, 0} {
+			sub := coneOfInfluence(o.Assume, o.Goal, hops)
+			if len(sub) == len(o.Assume) {
+				continue
+			}
+			so := &Obligation{Assume: sub, Goal: o.Goal, St: o.St}
+			r1, _, d1 := runSolver(ctx, "z3-new", so.Query(st), cfg.QuickTimeout, false)
+			o.TimeS += d1
+			if r1 == "unsat" {
+				o.Result, o.Solver = "unsat", fmt.Sprintf("z3-new(slice %d)", hops)
+				return
+			}
+		}
+	}
 	// stage 2: race all three
 	type ans struct {
 		solver, res, out string
@@ -404,4 +423,54 @@ func workers() int {
 		}
 	}
 	return runtime.NumCPU()
+}
+
+var symTokRe = regexp.MustCompile(`[A-Za-z_][A-Za-z0-9_.$#@]*![0-9]+`)
+
+// coneOfInfluence: the assumptions that share a path symbol (a fresh constant name!N) with the
+// goal, extended hops times through the symbols of the assumptions already selected.
+func coneOfInfluence(assume []Term, goal Term, hops int) []Term {
+	symsOf := func(s string) map[string]bool {
+		m := map[string]bool{}
+		for _, t := range symTokRe.FindAllString(s, -1) {
+			if strings.HasPrefix(t, "H.") || strings.HasPrefix(t, "Hbv.") {
+				continue // heap versions connect everything
+			}
+			m[t] = true
+		}
+		return m
+	}
+	cur := symsOf(goal.S)
+	per := make([]map[string]bool, len(assume))
+	for i, a := range assume {
+		per[i] = symsOf(a.S)
+	}
+	sel := make([]bool, len(assume))
+	for round := 0; round <= hops; round++ {
+		var added []int
+		for i := range assume {
+			if sel[i] {
+				continue
+			}
+			for t := range per[i] {
+				if cur[t] {
+					sel[i] = true
+					added = append(added, i)
+					break
+				}
+			}
+		}
+		for _, i := range added {
+			for t := range per[i] {
+				cur[t] = true
+			}
+		}
+	}
+	var out []Term
+	for i, a := range assume {
+		if sel[i] {
+			out = append(out, a)
+		}
+	}
+	return out
 }
